@@ -315,6 +315,22 @@ func mkVariant(enc sx.SX, kind int, flavour int, old *variants.Variant) *variant
 	return variants.NewVariant(h)
 }
 
+func hasNaN(v *variants.Variant) bool {
+	switch v.Type() {
+	case variants.Float:
+		return v.AsFloat() != v.AsFloat()
+	case variants.Double:
+		return v.AsDouble() != v.AsDouble()
+	case variants.Array:
+		for _, e := range v.AsArray() {
+			if e != nil && hasNaN(e) {
+				return true
+			}
+		}
+	}
+	return false
+}
+
 func runC20(in sx.SX) (sx.SX, string) {
 	v := []*variants.Variant{variants.EmptyVariant(), variants.EmptyVariant(), variants.EmptyVariant(), variants.EmptyVariant()}
 	lists := [][]*variants.Variant{make([]*variants.Variant, 0, 4), make([]*variants.Variant, 0, 2)}
@@ -414,6 +430,14 @@ func runC20(in sx.SX) (sx.SX, string) {
 				eq = append(eq, sx.B(r))
 				if r != y.Equals(x) && fail == "" {
 					fail = fmt.Sprintf("step %d: v%d.Equals(v%d) = %v but v%d.Equals(v%d) = %v", step, ai, bi, r, bi, ai, !r)
+				}
+				// against the value model: values of different types are never equal; identical values without NaN always are
+				ta, tb := sx.AsInt(sx.AsList(sv[ai])[0]), sx.AsInt(sx.AsList(sv[bi])[0])
+				if ta != tb && r && fail == "" {
+					fail = fmt.Sprintf("step %d: v%d (%s) equals v%d (%s) although their types differ", step, ai, sx.Text(sv[ai]), bi, sx.Text(sv[bi]))
+				}
+				if sx.Text(sv[ai]) == sx.Text(sv[bi]) && !r && !hasNaN(x) && fail == "" {
+					fail = fmt.Sprintf("step %d: v%d and v%d both hold %s and are not equal", step, ai, bi, sx.Text(sv[ai]))
 				}
 			}
 		}
